@@ -302,7 +302,7 @@ class HConc(HBase):
                 # Laplacian is *exactly* singular in doubles (SuperLU then refuses to factor); real
                 # meshes never are, so break the tie by a 1e-13 relative perturbation
                 h = int.from_bytes(hashlib.sha256(name.encode()).digest()[:4], "little") / 2**32
-                v = v * (1.0 + 1e-13 * (2 * h - 1))
+                v = v * (1.0 + getattr(self, "jitter", 1e-13) * (2 * h - 1))
         else:
             a = lo if lo is not None else (0.25 if pos else 0.0 if nonneg else -2.0)
             b = hi if hi is not None else (a + 3.0 if (pos or nonneg or lo is not None) else 2.0)
@@ -602,14 +602,20 @@ def model_to_valuation(model, run):
     return vals
 
 
-def run_concrete(harness, case, values=None, choices=None, seed=0, ranges=None):
+def run_concrete(harness, case, values=None, choices=None, seed=0, ranges=None, jitter=1e-13):
     H = HConc(case, values, choices, seed, ranges)
+    H.jitter = jitter
     H.exception = None
     try:
         harness.body(H, case)
     except ConcreteReject:
         raise
     except Exception as e:
+        if isinstance(e, RuntimeError) and "exactly singular" in str(e):
+            # SuperLU refuses an *exactly* singular factor of the (always singular) pure-Neumann
+            # Laplacian; with geometric meshes rounding prevents it, with synthetic weights it can
+            # happen: not a behaviour of the code under test, resample / re-jitter
+            raise ConcreteReject("SuperLU: factor exactly singular for these synthetic weights")
         H.exception = e
         H.exception_tb = traceback.format_exc()
     return H
@@ -850,6 +856,12 @@ def run_harness(harness, tier="quick", seed=0, replay=None, verbose=True):
         vals = _HUNT_VALS.pop(id(o), None)
         if vals is None:
             vals = model_to_valuation(o.result.model or {}, r)
+        if hasattr(harness, "concretise"):
+            # harness-specific concretisation of a model of an over-approximating encoding
+            # (e.g. rounding-error model -> IEEE doubles by a QF_FP query)
+            v2 = harness.concretise(r.case, o, vals)
+            if v2 is not None:
+                vals = v2
         ok, info = replay_obligation(harness, r, o, vals, seed)
         if not ok and (o.kind == "eq" or o.pairs) and o.result.model is not None and n_margin_retries < 40:
             # the model may violate the claim only infinitesimally: ask again with a margin
@@ -985,12 +997,17 @@ def setattr_safe(o, vals):
 def replay_obligation(harness, r, o, vals, seed):
     """Re-run the harness body on the unpatched code at the model's valuation; the named
     obligation must fail there."""
-    for attempt in range(3):
+    Hc, last = None, None
+    for attempt in range(4):
         try:
-            Hc = run_concrete(harness, r.case, vals, o.choices, seed=seed + attempt, ranges=r.ranges)
+            Hc = run_concrete(harness, r.case, vals, o.choices, seed=seed + attempt, ranges=r.ranges, jitter=1e-13 * 100**attempt)
+            break
         except ConcreteReject as e:
-            return False, f"valuation rejected by harness assumptions: {e}"
-        break
+            last = e
+            if "exactly singular" not in str(e):
+                return False, f"valuation rejected by harness assumptions: {e}"
+    if Hc is None:
+        return False, f"valuation rejected: {last}"
     if o.kind == "defined":
         bad = [n for n, v in Hc.results.items() if v["ok"] is False or (v.get("err") is not None and math.isnan(v["err"]))]
         if Hc.exception is not None:
@@ -1062,8 +1079,9 @@ def translator_validation(harness, runs, seed, n=3, log=print):
             for o in obls_by_path.get(q.pid, []):
                 cres = Hc.results.get(o.name)
                 if cres is None:
-                    if o.kind != "unreachable":
-                        out["mismatches"].append((r.case.name, o.name, "claim not reached concretely"))
+                    if o.kind not in ("unreachable", "lemma"):
+                        why = f" (concrete run raised {type(Hc.exception).__name__}: {Hc.exception})" if Hc.exception is not None else ""
+                        out["mismatches"].append((r.case.name, o.name, "claim not reached concretely" + why))
                     continue
                 if cres["ok"] is False:
                     out["concrete_failures"].append((r.case.name, o.name, dict(vals=None, err=cres["err"])))
